@@ -26,7 +26,7 @@ def size_class(size, bs):
 
 
 def gen_file(r, bsv, idx, big_ok):
-    kind = r.choice(["dense", "dense", "dense", "sparse", "sparse-unaligned", "allhole"])
+    kind = r.choice(["dense", "dense", "dense", "sparse", "sparse-unaligned", "allhole", "manyseg"])
     e = {"p": "src/f%d" % idx, "k": "f", "seed": r.randrange(1, 1 << 30), "segs": None, "sync": r.random() < 0.5}
     if kind == "dense" or (bsv is not None and bsv < 512):
         kind = "dense"
@@ -37,6 +37,15 @@ def gen_file(r, bsv, idx, big_ok):
         else:
             sizes = [s for s in tree.boundary_sizes(bsv) if s <= max(6 * bsv, 200000) and s <= 9000000]
         e["size"] = r.choice(sizes)
+    elif kind == "manyseg":
+        # more data segments than two FIEMAP pages hold, each in an extent of its own
+        n = r.choice([40, 70, 100])
+        segs, pos = [], r.choice([0, 65536])
+        for _ in range(n):
+            ln = r.choice([1, 4096, 5000, 12289])
+            segs.append([pos, ln])
+            pos += ln + r.choice([65536, 3 * 4096, 1 << 18])
+        e["size"], e["segs"] = pos if r.random() < 0.5 else segs[-1][0] + segs[-1][1], segs
     elif kind == "allhole":
         e["size"] = r.choice([1 << 20, (3 << 20) + 17, 10 << 20])
         e["segs"] = []
